@@ -800,4 +800,402 @@ theorem full2_run (st : State) (is : List Input) (h : Full2 st) : Full2 (run st 
   | nil => exact h
   | cons i is ih => exact ih _ (full2_step st i h)
 
+/-! ### arrival order: what is processed is what arrived, in the order it arrived -/
+
+/-- the message hooks that have fired, in order, with the content the layer put into `flow.messages` -/
+def hookMsgs (tr : List Output) : List Msg :=
+  tr.filterMap fun o => match o with
+    | .hook (.message fc d) => some ⟨fc, d⟩
+    | _ => none
+
+/-- data events still waiting in the pause queue -/
+def dataOf (q : List Ev) : List Msg :=
+  q.filterMap fun e => match e with
+    | .data src d => some ⟨src == .client, d⟩
+    | .closed _ => none
+
+@[simp] theorem hookMsgs_append (a b : List Output) : hookMsgs (a ++ b) = hookMsgs a ++ hookMsgs b := by
+  simp [hookMsgs, List.filterMap_append]
+@[simp] theorem hookMsgs_nil : hookMsgs [] = [] := rfl
+@[simp] theorem hookMsgs_cons (o : Output) (t : List Output) :
+    hookMsgs (o :: t) = (match o with | .hook (.message fc d) => [⟨fc, d⟩] | _ => []) ++ hookMsgs t := by
+  cases o with
+  | hook h => cases h <;> simp [hookMsgs, List.filterMap_cons]
+  | _ => simp [hookMsgs, List.filterMap_cons]
+@[simp] theorem dataOf_nil : dataOf [] = [] := rfl
+@[simp] theorem dataOf_cons (e : Ev) (q : List Ev) :
+    dataOf (e :: q) = (match e with | .data src d => [⟨src == .client, d⟩] | .closed _ => []) ++ dataOf q := by
+  cases e <;> simp [dataOf, List.filterMap_cons]
+@[simp] theorem dataOf_append (a b : List Ev) : dataOf (a ++ b) = dataOf a ++ dataOf b := by
+  simp [dataOf, List.filterMap_append]
+
+/-- arrival-order invariant (flows with hooks): the message hooks fired so far, followed by the data still queued,
+    are exactly the data/injected events that have arrived, in arrival order; after the end: a prefix of them -/
+def Arr (q : List Ev) (st : State) (A : List Msg) : Prop :=
+  (st.phase = .idle → A = [] ∧ hookMsgs st.trace = []) ∧
+  (st.phase = .start → hookMsgs st.trace ++ dataOf q = A) ∧
+  (st.phase = .relay → hookMsgs st.trace ++ dataOf q = A) ∧
+  (st.phase = .done → ∃ r, hookMsgs st.trace ++ r = A)
+
+theorem arr_setq {st : State} (q q' : List Ev) (A : List Msg) : Arr q' { st with queue := q } A ↔ Arr q' st A := by
+  simp [Arr]
+
+theorem arr_handle {q : List Ev} {st : State} {e : Ev} {A : List Msg} (hf : st.flow = true)
+    (h : Arr (e :: q) st A) (hp : st.pending = .none) (hstart : st.phase ≠ .start) (hidle : st.phase ≠ .idle) :
+    Arr q (handle st e) A := by
+  obtain ⟨h0, h1, h2, h3⟩ := h
+  unfold handle
+  split
+  · rename_i hph
+    have h2' := h2 hph
+    cases e with
+    | data src d =>
+      simp only [handleData, hf, if_true]
+      refine ⟨by simp [hph], by simp [hph], ?_, by simp [hph]⟩
+      intro _
+      simpa [List.append_assoc] using h2'
+    | closed s =>
+      have h2'' : hookMsgs st.trace ++ dataOf q = A := by simpa using h2'
+      have key : ∀ st' : State, hookMsgs st'.trace = hookMsgs st.trace →
+          (st'.phase = .relay ∨ st'.phase = .done) → Arr q st' A := by
+        intro st' ht hph'
+        refine ⟨?_, ?_, ?_, ?_⟩
+        · intro h; rcases hph' with h' | h' <;> rw [h] at h' <;> cases h'
+        · intro h; rcases hph' with h' | h' <;> rw [h] at h' <;> cases h'
+        · intro _; rw [ht]; exact h2''
+        · intro _; exact ⟨dataOf q, by rw [ht]; exact h2''⟩
+      apply key
+      · simp only [handleClosed, finish]
+        repeat' split
+        all_goals simp_all
+      · simp only [handleClosed, finish]
+        repeat' split
+        all_goals simp_all
+  · rename_i hne
+    refine ⟨fun h => absurd h hidle, fun h => absurd h hstart, fun h => absurd h hne, ?_⟩
+    intro hd
+    obtain ⟨r, hr⟩ := h3 hd
+    cases e with
+    | data src d => exact ⟨r, hr⟩
+    | closed s => exact ⟨r, hr⟩
+
+theorem arr_drain (q : List Ev) (st : State) (A : List Msg) (hf : st.flow = true) (hI : TrInv st)
+    (h : Arr q st A) (hidle : st.phase ≠ .idle) :
+    Arr (drain q st).queue (drain q st) A := by
+  induction q generalizing st with
+  | nil => simpa [drain, arr_setq] using h
+  | cons e q ih =>
+    unfold drain
+    split
+    · rename_i hp
+      have hstart : st.phase ≠ .start := by
+        intro hs
+        have := hI; unfold TrInv at this
+        obtain ⟨-, -, -, -, -, -, -, -, h9, -⟩ := this
+        exact h9 hs hp
+      have hf' : (handle st e).flow = true := by rw [(handle_ext st e).1]; exact hf
+      refine ih _ hf' (inv_handle hI hp) (arr_handle hf h hp hstart hidle) ?_
+      unfold handle
+      split
+      · cases e with
+        | data src d => simp only [handleData]; split <;> simp_all
+        | closed s =>
+          simp only [handleClosed, finish]
+          repeat' split
+          all_goals simp_all
+      · exact hidle
+    · simpa [arr_setq] using h
+
+/-- what an input contributes to the arrival sequence (nothing before `Start`) -/
+def arrOf (st : State) (i : Input) : List Msg :=
+  if st.phase = .idle then [] else
+  match i with
+  | .data src d => [⟨src == .client, d⟩]
+  | .inject fc d => [⟨fc, d⟩]
+  | _ => []
+
+theorem arr_same {q : List Ev} {st st' : State} {A : List Msg} (h : Arr q st A)
+    (ht : hookMsgs st'.trace = hookMsgs st.trace) (hp : st'.phase = st.phase) : Arr q st' A := by
+  unfold Arr at *; rw [ht, hp]; exact h
+
+theorem arr_push_data {q : List Ev} {st : State} {A : List Msg} (h : Arr q st A) (hidle : st.phase ≠ .idle)
+    (src : Side) (d : Bytes) : Arr (q ++ [.data src d]) st (A ++ [⟨src == .client, d⟩]) := by
+  obtain ⟨h0, h1, h2, h3⟩ := h
+  refine ⟨fun hh => absurd hh hidle, ?_, ?_, ?_⟩
+  · intro hh; simp [← h1 hh, List.append_assoc]
+  · intro hh; simp [← h2 hh, List.append_assoc]
+  · intro hh; obtain ⟨r, hr⟩ := h3 hh; exact ⟨r ++ [⟨src == .client, d⟩], by rw [← hr, List.append_assoc]⟩
+
+theorem arr_push_closed {q : List Ev} {st : State} {A : List Msg} (h : Arr q st A) (s : Side) :
+    Arr (q ++ [.closed s]) st A := by
+  obtain ⟨h0, h1, h2, h3⟩ := h
+  exact ⟨h0, fun hh => by simpa using h1 hh, fun hh => by simpa using h2 hh, h3⟩
+
+theorem arr_deliver (st : State) (ev : Ev) (A : List Msg) (hf : st.flow = true) (hI : TrInv st) (hQ : QInv st)
+    (h : Arr (st.queue ++ [ev]) st A) (hidle : st.phase ≠ .idle) :
+    Arr (deliver st ev).queue (deliver st ev) A := by
+  unfold deliver
+  split
+  · rename_i hp
+    have hq : st.queue = [] := hQ hp
+    rw [hq] at h
+    rw [handle_queue, hq]
+    have hstart : st.phase ≠ .start := by
+      intro hs
+      have := hI; unfold TrInv at this
+      obtain ⟨-, -, -, -, -, -, -, -, h9, -⟩ := this
+      exact h9 hs hp
+    exact arr_handle hf h hp hstart hidle
+  · simpa [arr_setq] using h
+
+theorem arr_step_aux (st : State) (i : Input) (A : List Msg) (hi : i ≠ .hookKill) (hf : st.flow = true)
+    (hF : Full st) (h : Arr st.queue st A) : Arr (step st i).queue (step st i) (A ++ arrOf st i) := by
+  obtain ⟨hI, hK, hQ⟩ := hF
+  have hI' := hI
+  unfold TrInv at hI'
+  obtain ⟨-, -, -, -, t5, t6, t7, t8, t9, t10, -, -, -⟩ := hI'
+  unfold step
+  split
+  · rename_i hph
+    have hq : st.queue = [] := hQ (t10 hph).1
+    obtain ⟨hA, hT⟩ := h.1 hph
+    cases i with
+    | start =>
+      simp only [hf, if_true, arrOf, hph]
+      refine ⟨by simp, ?_, by simp, by simp⟩
+      intro _; simp [hT, hA, hq]
+    | _ => simpa [arrOf, hph] using h
+  · rename_i hph
+    have hidle : st.phase ≠ .idle := fun hh => hph hh
+    cases i with
+    | hookKill => exact absurd rfl hi
+    | start => simpa [arrOf, hidle] using h
+    | data src d =>
+      simp only [arrOf, hidle, if_false]
+      exact arr_deliver st _ _ hf hI hQ (arr_push_data h hidle src d) hidle
+    | inject fc d =>
+      simp only [arrOf, hidle, if_false]
+      have := arr_push_data h hidle (if fc = true then Side.client else Side.server) d
+      have e : ((if fc = true then Side.client else Side.server) == Side.client) = fc := by cases fc <;> rfl
+      rw [e] at this
+      exact arr_deliver st _ _ hf hI hQ this hidle
+    | closed s full =>
+      simp only [arrOf, hidle, if_false, List.append_nil]
+      have hc : (if full = true then Conn.shut else { st.conn s with canRead := false }).canRead = false := by
+        split <;> rfl
+      have hfld := setConn_fields st s (if full = true then Conn.shut else { st.conn s with canRead := false })
+      have h1 := inv_setConn (s := s) hc hI
+      refine arr_deliver _ _ _ (by rw [hfld.1]; exact hf) h1 ?_ ?_ (by rw [hfld.2.2.2.2.1]; exact hidle)
+      · intro hp; rw [hfld.2.2.2.2.2.1]; exact hQ (by rw [← hfld.2.2.2.1]; exact hp)
+      · rw [hfld.2.2.2.2.2.1]
+        exact arr_push_closed (arr_same h (by rw [hfld.2.1]) hfld.2.2.2.2.1) s
+    | hookDone edit =>
+      simp only [arrOf, hidle, if_false, List.append_nil]
+      split
+      · -- startHook
+        rename_i hp
+        have hst := (t5 hp).1
+        have hA := h.2.1 hst
+        refine arr_drain _ _ _ ?_ ?_ ?_ ?_
+        · unfold enterRelayOrConnect; split <;> simp [hf]
+        · unfold enterRelayOrConnect; split <;> inv_tac hI hK
+        · unfold enterRelayOrConnect
+          split
+          · exact ⟨by simp, by simp, fun _ => by simpa using hA, by simp⟩
+          · exact ⟨by simp [hst], fun _ => by simpa using hA, by simp [hst], by simp [hst]⟩
+        · unfold enterRelayOrConnect; split <;> simp [hst]
+      · -- errorHook
+        rename_i hp
+        have hst := (t7 hp).1
+        have hA := h.2.1 hst
+        refine arr_drain _ _ _ ?_ ?_ ?_ ?_
+        · simp [afterError, hf]
+        · unfold afterError; inv_tac hI hK
+        · exact ⟨by simp [afterError], by simp [afterError], by simp [afterError],
+            fun _ => ⟨dataOf st.queue, by simpa [afterError] using hA⟩⟩
+        · simp [afterError]
+      · -- msgHook
+        rename_i to m hp
+        have hI2 := hI
+        unfold TrInv at hI2
+        have hrel := (hI2.2.1 to m hp).2.2
+        have hA := h.2.2.1 hrel
+        refine arr_drain _ _ _ ?_ ?_ ?_ ?_
+        · simp [hf]
+        · inv_tac hI hK
+          intro s
+          rw [recorded_snoc]
+          cases to <;> cases s <;> simp_all
+        · exact ⟨by simp [hrel], by simp [hrel], fun _ => by simpa using hA, by simp [hrel]⟩
+        · simp [hrel]
+      · -- endHook
+        rename_i hp
+        have hd := (t8 hp).1
+        have hA := h.2.2.2 hd
+        refine arr_drain _ _ _ ?_ ?_ ?_ ?_
+        · simp [hf]
+        · inv_tac hI hK
+        · exact ⟨by simp [hd], by simp [hd], by simp [hd], fun _ => by simpa using hA⟩
+        · simp [hd]
+      · simpa using h
+    | connectDone err =>
+      simp only [arrOf, hidle, if_false, List.append_nil]
+      split
+      · rename_i hp
+        have hst := (t6 hp).1
+        have hA := h.2.1 hst
+        split
+        · simp only [hf, if_true]
+          exact ⟨by simp [hst], fun _ => by simpa using hA, by simp [hst], by simp [hst]⟩
+        · refine arr_drain _ _ _ ?_ ?_ ?_ ?_
+          · simp [hf]
+          · inv_tac hI hK
+          · exact ⟨by simp, by simp, fun _ => by simpa using hA, by simp⟩
+          · simp
+      · simpa using h
+
+theorem arr_applyKill {q : List Ev} {st : State} {A : List Msg} (h : Arr q st A) : Arr q (applyKill st) A :=
+  arr_same h (by rw [(applyKill_fields st).2.1]) (applyKill_fields st).2.2.2.2.1
+
+theorem arrOf_applyKill (st : State) (i : Input) : arrOf (applyKill st) i = arrOf st i := by
+  simp [arrOf, (applyKill_fields st).2.2.2.2.1]
+
+theorem arr_step (st : State) (i : Input) (A : List Msg) (hf : st.flow = true)
+    (hF : Full st) (h : Arr st.queue st A) : Arr (step st i).queue (step st i) (A ++ arrOf st i) := by
+  by_cases hi : i = .hookKill
+  · subst hi
+    have hz : arrOf st .hookKill = [] := by simp [arrOf]
+    rw [hz, List.append_nil]
+    rcases step_hookKill st with e | e
+    · rw [e]; exact h
+    · rw [e]
+      have := arr_step_aux (applyKill st) (.hookDone none) A (by simp)
+        (by rw [(applyKill_fields st).1]; exact hf) (full_applyKill st hF)
+        (by rw [(applyKill_fields st).2.2.2.2.2.1]; exact arr_applyKill h)
+      simpa [arrOf] using this
+  · exact arr_step_aux st i A hi hf hF h
+
+/-- data / injected messages of a whole schedule, in arrival order (events before `Start` are not accepted) -/
+def arrivals : State → List Input → List Msg
+  | _, [] => []
+  | st, i :: is => arrOf st i ++ arrivals (step st i) is
+
+theorem arr_run (st : State) (is : List Input) (A : List Msg) (hf : st.flow = true) (hF : Full st)
+    (h : Arr st.queue st A) : Arr (run st is).queue (run st is) (A ++ arrivals st is) := by
+  induction is generalizing st A with
+  | nil => simpa [arrivals, run] using h
+  | cons i t ih =>
+    have := ih (step st i) (A ++ arrOf st i) (by rw [(step_cfg st i).1]; exact hf) (full_step st i hF)
+      (arr_step st i A hf hF h)
+    simpa [arrivals, run, List.append_assoc] using this
+
+theorem arr_init (p : Proto) (c : Bool) : Arr (init p true c).queue (init p true c) [] := by
+  simp [Arr, init]
+
+theorem handle_not_idle (st : State) (e : Ev) (h : st.phase ≠ .idle) : (handle st e).phase ≠ .idle := by
+  unfold handle
+  split
+  · cases e with
+    | data src d => simp only [handleData]; split <;> simp_all
+    | closed s =>
+      simp only [handleClosed, finish]
+      repeat' split
+      all_goals simp_all
+  · exact h
+
+theorem drain_not_idle (q : List Ev) (st : State) (h : st.phase ≠ .idle) : (drain q st).phase ≠ .idle := by
+  induction q generalizing st with
+  | nil => simpa [drain] using h
+  | cons e q ih =>
+    unfold drain
+    split
+    · exact ih _ (handle_not_idle st e h)
+    · simpa using h
+
+theorem deliver_not_idle (st : State) (ev : Ev) (h : st.phase ≠ .idle) : (deliver st ev).phase ≠ .idle := by
+  unfold deliver
+  split
+  · exact handle_not_idle _ _ h
+  · simpa using h
+
+theorem step_not_idle (st : State) (i : Input) (h : st.phase ≠ .idle) : (step st i).phase ≠ .idle := by
+  unfold step
+  split
+  · rename_i hh; exact absurd hh h
+  · cases i with
+    | start => exact h
+    | data src d => exact deliver_not_idle _ _ h
+    | inject fc d => exact deliver_not_idle _ _ h
+    | closed s full =>
+      have hfld := setConn_fields st s (if full = true then Conn.shut else { st.conn s with canRead := false })
+      exact deliver_not_idle _ _ (by rw [hfld.2.2.2.2.1]; exact h)
+    | hookDone edit =>
+      simp only
+      split
+      · apply drain_not_idle; unfold enterRelayOrConnect; split <;> simp [h]
+      · apply drain_not_idle; simp [afterError]
+      · apply drain_not_idle; simpa using h
+      · apply drain_not_idle; simpa using h
+      · exact h
+    | hookKill =>
+      have hk := (applyKill_fields st).2.2.2.2.1
+      simp only
+      split
+      · apply drain_not_idle; unfold enterRelayOrConnect; split <;> simp [h, hk]
+      · apply drain_not_idle; simp [afterError]
+      · apply drain_not_idle; simpa [hk] using h
+      · apply drain_not_idle; simpa [hk] using h
+      · exact h
+    | connectDone err =>
+      simp only
+      split
+      · split
+        · split
+          · simpa using h
+          · apply drain_not_idle; simp [afterError]
+        · apply drain_not_idle; simp
+      · exact h
+
+/-- data / injected messages a schedule delivers after `Start`, in delivery order -/
+def accepted : Bool → List Input → List Msg
+  | _, [] => []
+  | false, .start :: is => accepted true is
+  | false, _ :: is => accepted false is
+  | true, .data src d :: is => ⟨src == .client, d⟩ :: accepted true is
+  | true, .inject fc d :: is => ⟨fc, d⟩ :: accepted true is
+  | true, _ :: is => accepted true is
+
+theorem arrivals_eq_accepted (st : State) (is : List Input) :
+    arrivals st is = accepted (decide (st.phase ≠ .idle)) is := by
+  induction is generalizing st with
+  | nil => cases h : decide (st.phase ≠ .idle) <;> simp [arrivals, accepted]
+  | cons i t ih =>
+    by_cases hid : st.phase = .idle
+    · have e0 : decide (st.phase ≠ .idle) = false := by simp [hid]
+      rw [e0]
+      simp only [arrivals, arrOf, hid, if_true, List.nil_append]
+      rw [ih]
+      cases i with
+      | start =>
+        have : (step st .start).phase ≠ .idle := by
+          unfold step; simp only [hid]
+          split
+          · simp
+          · unfold enterRelayOrConnect; split <;> simp
+        simp [accepted, this]
+      | _ =>
+        have e : ∀ j : Input, j ≠ .start → step st j = st := by
+          intro j hj
+          cases j with
+          | start => exact absurd rfl hj
+          | _ => unfold step; simp [hid]
+        rw [e _ (by simp)]
+        simp [accepted, hid]
+    · have e1 : decide (st.phase ≠ .idle) = true := by simp [hid]
+      have e2 : decide ((step st i).phase ≠ .idle) = true := by simpa using step_not_idle st i hid
+      rw [e1]
+      simp only [arrivals, arrOf, hid, if_false]
+      rw [ih, e2]
+      cases i <;> simp [accepted]
+
 end MitmVerif.C29.Lemmas
